@@ -2,7 +2,7 @@
    language as harness/rs (see tools/caselang.md), interpreted over the models. *)
 From Coq Require Import NArith ZArith List Bool.
 From V Require Import Base.Res Base.Word Base.MachInt gen.GenConsts gen.GenFormulas
-  Spec.Tree Model.Portable Model.Platform Model.RsChunk Model.RsWide Model.RsHasher Model.RsXof Model.RsIo.
+  Spec.Tree Model.Portable Model.Platform Model.RsChunk Model.RsWide Model.RsHasher Model.RsXof Model.RsIo Model.RsDebug.
 Import ListNotations.
 Open Scope N_scope.
 
@@ -46,7 +46,12 @@ Inductive op :=
 | OpTXof (i : nat) (n : N)
 | OpTXofReset (i : nat) (n : N)
 | OpTKeyInit
-| OpTDigestNew.
+| OpTDigestNew
+(* Debug / Zeroize *)
+| OpDbg (i : nat)
+| OpReaderDbg (j : nat)
+| OpZeroHasher (i : nat)
+| OpZeroReader (j : nat).
 
 Inductive obs :=
 | ObHex (b : list N)          (* a hash / cv *)
@@ -54,7 +59,9 @@ Inductive obs :=
 | ObNum (n : N)
 | ObRead (n : N) (b : list N)
 | ObOk
-| ObErrIo (kind : N).         (* 0 = InvalidInput, otherwise the scripted kind *)
+| ObErrIo (kind : N)
+| ObStr (s : list N)          (* a Debug string *)
+| ObZeroed (all_zero : bool). (* every non-platform field is zero *)         (* 0 = InvalidInput, otherwise the scripted kind *)
 
 Record mstate := mkState {
   st_hashers : list hasher;
@@ -102,7 +109,16 @@ Definition add_reader (st : mstate) (r : reader) : mstate :=
 Definition add_val (st : mstate) (v : list N) : mstate :=
   mkState (st_hashers st) (st_readers st) (st_vals st ++ [v]).
 
-Definition step (p : platform) (m : mmode) (key : list N) (flags : N) (st : mstate) (o : op)
+Definition all_zero (l : list N) : bool := forallb (fun x => x =? 0) l.
+Definition hasher_is_zero (h : hasher) : bool :=
+  all_zero (h_key h) && all_zero (cs_cv (h_cs h)) && (cs_ctr (h_cs h) =? 0) && all_zero (cs_buf (h_cs h)) &&
+  (cs_buf_len (h_cs h) =? 0) && (cs_blocks (h_cs h) =? 0) && (cs_flags (h_cs h) =? 0) && (h_init h =? 0) &&
+  match h_stack h with [] => true | _ => false end.
+Definition reader_is_zero (r : reader) : bool :=
+  all_zero (o_cv (r_out r)) && all_zero (o_block (r_out r)) && (o_blen (r_out r) =? 0) && (o_ctr (r_out r) =? 0) &&
+  (o_flags (r_out r) =? 0) && (r_pwb r =? 0).
+
+Definition step (p : platform) (pname : list N) (m : mmode) (key : list N) (flags : N) (st : mstate) (o : op)
   : res (mstate * list obs) :=
   match o with
   | OpNew => Ok (add_hasher st (new_internal key flags), [])
@@ -167,24 +183,32 @@ Definition step (p : platform) (m : mmode) (key : list N) (flags : N) (st : msta
       | _ => Panic 901
       end
   | OpTDigestNew => Ok (add_hasher st (new_internal rs_IV 0), [])
+  | OpDbg i => h <- get (st_hashers st) i ;; Ok (st, [ObStr (debug_hasher h pname)])
+  | OpReaderDbg j => r <- get (st_readers st) j ;; s <- debug_reader r ;; Ok (st, [ObStr s])
+  | OpZeroHasher i =>
+      h <- get (st_hashers st) i ;; let h' := zero_hasher h in
+      Ok (set_hasher st i h', [ObZeroed (hasher_is_zero h')])
+  | OpZeroReader j =>
+      r <- get (st_readers st) j ;; let r' := zero_reader r in
+      Ok (set_reader st j r', [ObZeroed (reader_is_zero r')])
   end.
 
-Fixpoint run_ops (p : platform) (m : mmode) (key : list N) (flags : N) (st : mstate) (ops : list op)
+Fixpoint run_ops (p : platform) (pname : list N) (m : mmode) (key : list N) (flags : N) (st : mstate) (ops : list op)
          (acc : list obs) : list obs * res unit :=
   match ops with
   | [] => (rev acc, Ok tt)
   | o :: tl =>
-      match step p m key flags st o with
-      | Ok (st', out) => run_ops p m key flags st' tl (rev out ++ acc)
+      match step p pname m key flags st o with
+      | Ok (st', out) => run_ops p pname m key flags st' tl (rev out ++ acc)
       | Panic c => (rev acc, Panic c)
       | OutOfFuel => (rev acc, OutOfFuel)
       end
   end.
 
 (* a case: mode, then instance 0 is created, then the ops *)
-Definition run_case (p : platform) (m : mmode) (ops : list op) : list obs * res unit :=
+Definition run_case (p : platform) (pname : list N) (m : mmode) (ops : list op) : list obs * res unit :=
   match mode_init p m with
-  | Ok (key, flags) => run_ops p m key flags (mkState [new_internal key flags] [] []) ops []
+  | Ok (key, flags) => run_ops p pname m key flags (mkState [new_internal key flags] [] []) ops []
   | Panic c => ([], Panic c)
   | OutOfFuel => ([], OutOfFuel)
   end.
